@@ -1448,7 +1448,11 @@ impl AstNode for VariantCase {
     fn parse(pair: Pair<Rule>) -> Result<Self, Error> {
         let case = match pair.as_rule() {
             Rule::variant_case_struct => Self::struct_case_parse(pair),
-            Rule::variant_case_tuple => todo!("parse variant case tuple"),
+            Rule::variant_case_tuple => Err(Error {
+                message: "tuple variant cases are not supported yet".to_string(),
+                src: pair.as_str().to_string(),
+                span: Span::new(0, pair.as_str().len()),
+            }),
             Rule::variant_case_unit => Self::unit_case_parse(pair),
             x => unreachable!("Unexpected rule in datum_variant: {:?}", x),
         }?;
@@ -1498,7 +1502,11 @@ impl AstNode for ChainSpecificBlock {
                 let block = crate::cardano::CardanoBlock::parse(block)?;
                 Ok(ChainSpecificBlock::Cardano(block))
             }
-            x => unreachable!("Unexpected rule in chain_specific_block: {:?}", x),
+            _ => Err(Error {
+                message: "unsupported chain-specific block".to_string(),
+                src: block.as_str().to_string(),
+                span: Span::new(0, block.as_str().len()),
+            }),
         }
     }
 
